@@ -49,6 +49,9 @@ type dsShape struct {
 	Reps    int
 	Pattern string // "shifted", "equal", "zero", "negative"
 	Missing bool   // the last benchmark is missing from the second file
+	// MissingFirst: the first benchmark is missing from the first file, so a
+	// row exists that has no baseline cell.
+	MissingFirst bool
 }
 
 var dsBenchNames = []string{"A", "B/k=1", "B/k=2-4"}
@@ -82,6 +85,9 @@ func (s dsShape) build() dataset {
 			for rep := 0; rep < s.Reps; rep++ {
 				for ni := 0; ni < s.Benches; ni++ {
 					if s.Missing && fi == 1 && ni == s.Benches-1 && s.Benches > 1 {
+						continue
+					}
+					if s.MissingFirst && fi == 0 && ni == 0 && s.Benches > 1 && s.Files > 1 {
 						continue
 					}
 					ln := dsLine{Name: dsBenchNames[ni], Units: units}
